@@ -52,6 +52,12 @@ def build_source(src, holder):
         return cb.Environments.from_lambda(kw["n"], lam_context, lam_actions, lam_reward, kw["seed"])
     if kind == "supervised_xy":
         Xs = [list(x) for x in kw["X"]]
+        if kw.get("nested_cat"):
+            # a feature that is itself a (mutable) container holding categorical values
+            from coba.primitives import Categorical
+            lv = ["u", "v", "w"]
+            for i, x in enumerate(Xs):
+                x.append([Categorical(lv[(i * 2 + 1) % 3], lv), i % 2])
         if kw.get("mixed_rows"):
             Xs[0] = tuple(Xs[0])          # an immutable container first, plain lists after it
         Ys = list(kw["Y"])
@@ -213,7 +219,10 @@ def gen_src(rng):
     if k == "bandit":
         return ["bandit", {"n_interactions": n, "n_actions": 2 + rng.randrange(3), "seed": rng.randrange(1, 30)}]
     if k == "tagged":
-        return ["tagged", {"tag": "T", "n": n, "n_actions": 2 + rng.randrange(2), "extra": rng.random() < 0.3}]
+        kw = {"tag": "T", "n": n, "n_actions": 2 + rng.randrange(2), "extra": rng.random() < 0.3}
+        if rng.random() < 0.35 and n > 0:
+            kw["interrupt_at"] = weighted(rng, [(0, 1), (1, 1), (min(n - 1, 24), 1), (min(n - 1, 25), 2), (min(n - 1, 26), 1), (rng.randrange(n), 3)])
+        return ["tagged", kw]
     if k == "lambda":
         return ["lambda", {"n": n, "seed": weighted(rng, [(None, 1), (rng.randrange(1, 20), 2)])}]
     if k == "supervised_xy":
@@ -226,7 +235,7 @@ def gen_src(rng):
         if rng.random() < 0.25:
             return ["supervised_src", {"X": Xs, "Y": Ys, "label_type": "r" if reg else weighted(rng, [("c", 2), (None, 1)])}]
         return ["supervised_xy", {"X": Xs, "Y": Ys, "label_type": "r" if reg else weighted(rng, [("c", 2), (None, 1)]),
-                                  "mixed_rows": rng.random() < 0.3}]
+                                  "mixed_rows": rng.random() < 0.3, "nested_cat": rng.random() < 0.2}]
     if k == "supervised_csv":
         m = max(1, n)
         lines = ["f1,f2,lab"] + [f"{rng.randrange(9)},{round(rng.random(), 2)},{rng.choice(['x', 'y', 'z'])}" for _ in range(m)]
@@ -299,7 +308,9 @@ def gen_ops(rng, src):
         elif o == "unbatch" and batched:
             ops.append(["unbatch", {}]); batched = False
         elif o == "logged" and not logged:
-            ops.append(["logged", {"learner": weighted(rng, [(["random", {"seed": 2}], 2), (["eps", {"epsilon": 0.3, "seed": 3}], 1), (["counter", {"k": 2, "tag": "lg"}], 1)]),
+            ops.append(["logged", {"learner": weighted(rng, [(["random", {"seed": 2}], 2), (["eps", {"epsilon": 0.3, "seed": 3}], 1), (["counter", {"k": 2, "tag": "lg"}], 1),
+                                                               (["info", {"tag": "li", "every": 1 + rng.randrange(3), "skip_first": True,
+                                                                          "transient_raise_at": weighted(rng, [(None, 1), (2 * rng.randrange(1, 4), 1), (rng.randrange(1, 9), 1)])}], 1.5)]),
                                    "seed": weighted(rng, [(1.23, 2), (7, 1)])}]); logged = True
         elif o == "ope_rewards" and logged:
             ops.append(["ope_rewards", {"rewards_type": "IPS"}])
@@ -345,7 +356,7 @@ class C04:
     rule = ("one run = one environment (synthetic / lambda / class-based / supervised from sequences, a caller-owned Source object, CSV / ARFF / LibSVM lines / result-based source "
             "+ 0-5 built-in filters with sampled parameters) and one history of 3-12 operations on that one object: full read, partial read of k "
             "items (a reader may look at every outcome of the reward/feedback functions, at one action's only, or in reverse order) whose close() is delivered now / by dropping the reference / after j later operations / never, params look-up, pickle round "
-            "trip, materialize(), cache(), chunk(), save()+from_save(), forced gc; specs whose pristine first read raises are discarded; "
+            "trip, materialize(), cache(), chunk(), save()+from_save(), forced gc; a Ctrl-C (KeyboardInterrupt) the first time a chosen item of a class-based source is produced; specs whose pristine first read raises are discarded; "
             "non-trivial = the history contains an abandoned read followed by another read; distinct = digest of (spec, history)")
     assumptions = ["inputs are re-iterable (lists, ListSource); specs whose first read on a fresh twin raises are discarded",
                    "reward / feedback callables are compared by their values on the interaction's actions",
@@ -366,11 +377,16 @@ class C04:
         out["digest"] = hashlib.blake2b(json.dumps(cfg, sort_keys=True).encode(), digest_size=16).hexdigest()
         out["sample"] = cfg
         # reference: first full read of a freshly built twin
+        from checks import components as K
+        K.TRANSIENT_FIRED.clear()
         try:
+            K.INTERRUPTS_ENABLED = False
             twin = build_env(cfg, {})
             R = [canon(i) for i in twin.read()]
             P = canon_val(dict(twin.params))
+            K.INTERRUPTS_ENABLED = True
         except Exception as e:
+            K.INTERRUPTS_ENABLED = True
             out.update(nontrivial=False, violation=None, violations=[])
             out["counters"]["discarded_unreadable_spec"] = 1
             out["counters"][f"discarded.src.{cfg['src'][0]}"] = 1
@@ -381,9 +397,11 @@ class C04:
             # not depend on the order of asking (a Grounded environment whose actions were rewritten by a later filter does: its feedback
             # no longer recognises the actions - a filter-composition matter outside C04); otherwise the twin's values are no reference
             try:
+                K.INTERRUPTS_ENABLED = False
                 order_free = [canon(i, "rev") for i in build_env(cfg, {}).read()] == R
             except Exception:
                 order_free = False
+            K.INTERRUPTS_ENABLED = True
             if not order_free:
                 cfg = copy.deepcopy(cfg)
                 for _, a in cfg["history"]:
@@ -480,7 +498,17 @@ class C04:
                         read_objs.add(id(live[-1]))
                     elif op == "gc":
                         gc.collect()
+                except KeyboardInterrupt:
+                    # the injected Ctrl-C (TaggedEnv.interrupt_at) ended this operation; what matters is what the next reads give
+                    out["counters"]["fault.read_interrupted_by_keyboardinterrupt"] = out["counters"].get("fault.read_interrupted_by_keyboardinterrupt", 0) + 1
+                    abandoned = True
+                    continue
                 except Exception as ex:
+                    if isinstance(ex, K.Injected) and str(ex).startswith("transient:"):
+                        # the injected one-off failure of the logging policy ended this operation; what matters is what the next reads give
+                        out["counters"]["fault.read_ended_by_transient_component_failure"] = out["counters"].get("fault.read_ended_by_transient_component_failure", 0) + 1
+                        abandoned = True
+                        continue
                     import traceback
                     tb = traceback.extract_tb(ex.__traceback__)
                     where = next((f"{os.path.basename(f.filename)}:{f.name}" for f in reversed(tb) if "/coba/" in f.filename), "?")
